@@ -220,8 +220,8 @@ Next ==
   \/ /\ st.n1 < MaxDeps /\ Add(Dep)
   \/ /\ Len(st.infos) < MaxInfos
      \* the contract adds a leaf only when the global exit root is new
-     /\ IF st.infos = <<>> THEN st.n1 > 0 \/ st.f # EmptyF
-        ELSE LET l == st.infos[Len(st.infos)] IN l.mer # st.n1 \/ l.f # st.f
+     /\ IF st.infos = <<>> THEN ~(st.n1 = 0 /\ st.f = EmptyF)
+        ELSE LET l == st.infos[Len(st.infos)] IN ~(l.mer = st.n1 /\ l.f = st.f)
      /\ Add(Info)
   \/ /\ Count(blocks, "ver") < MaxVer
      /\ \/ \E k \in (IF AllowSkipped THEN LastK(st, Ours) ELSE LastK(st, Ours) + 1)..MaxL2 : Add(Ev("ver", Ours, k))
